@@ -47,6 +47,7 @@ type FuncContract struct {
 	Ensures   []*Clause
 	Defines   []*Clause
 	Preserves []*Clause // closure invariants over captured variables (callbacks)
+	Assumes   []*Clause // entry assumptions that are not obligations at call sites (frozen start-up state)
 	Modifies  []string
 	AtCalls   []*Clause
 	Loops     map[int]*LoopSpec
@@ -346,6 +347,12 @@ func (cs *ContractSet) loadFile(path string) error {
 					return err
 				}
 				cur.Defines = append(cur.Defines, c)
+			case "assumes":
+				c, err := mk("assumes")
+				if err != nil {
+					return err
+				}
+				cur.Assumes = append(cur.Assumes, c)
 			case "preserves":
 				c, err := mk("preserves")
 				if err != nil {
